@@ -631,6 +631,17 @@ func (u *vc28U) mutate(stxs []transactions.SignedTxn) string {
 			s.Lsig.Sig = u.keys[0].sk.Sign(logic.Program(u.progs[0]))
 		}
 		return "lsig_orphan_content"
+	case 26, 27:
+		// the sender keeps authorising with its OWN identity although the transaction names
+		// another authorizer (a rekeyed-away account using its previous authorization)
+		if !s.AuthAddr.IsZero() {
+			return ""
+		}
+		s.AuthAddr = u.keys[r.Intn(len(u.keys))].addr
+		if s.AuthAddr == s.Txn.Sender {
+			return ""
+		}
+		return "own_identity_after_rekey"
 	default:
 		return ""
 	}
